@@ -786,7 +786,39 @@ func c17GenHistory(rng *rand.Rand, id string, nfiles, nq int) c17History {
 		h.Ops = append(h.Ops, c17Op{Op: op, H: hd, Q: rng.Intn(nq)})
 	}
 	closeH := func(hd int) { h.Ops = append(h.Ops, c17Op{Op: "close", H: hd}) }
-	switch rng.Intn(14) {
+	switch rng.Intn(15) {
+	case 14: // a handle without idle connections (its driver connection, and with it the index and its mapping, goes away
+		// after every statement while the sql.DB and whatever it keeps per handle live on), next to handles on OTHER files
+		// that are opened, queried and kept, so that address space freed by one index is taken by another
+		f := rng.Intn(nfiles)
+		o := c17OptStrings[2+rng.Intn(3)] // with an LRU cache
+		hd := open(f, o)
+		h.Ops = append(h.Ops, c17Op{Op: "idle0", H: hd})
+		var others []int
+		for i := 0; i < 4+rng.Intn(6); i++ {
+			for k := 0; k < 1+rng.Intn(3); k++ {
+				q(hd)
+			}
+			if len(others) < 3 || rng.Intn(2) == 0 {
+				oh := open((f+1+rng.Intn(nfiles-1))%nfiles, c17OptStrings[rng.Intn(len(c17OptStrings))])
+				q(oh)
+				others = append(others, oh)
+			} else {
+				k := rng.Intn(len(others))
+				closeH(others[k])
+				others = append(others[:k], others[k+1:]...)
+			}
+			if rng.Intn(3) == 0 {
+				h.Ops = append(h.Ops, c17Op{Op: "burst", H: hd, Q: rng.Intn(nq), N: 2 + rng.Intn(5)})
+			}
+		}
+		q(hd)
+		for _, oh := range others {
+			q(oh)
+			closeH(oh)
+		}
+		q(hd)
+		closeH(hd)
 	case 13: // first use of fresh handles under contexts that end within microseconds, then close: the file must be free
 		f := rng.Intn(nfiles)
 		o := c17OptStrings[rng.Intn(len(c17OptStrings))]
